@@ -48,7 +48,10 @@ INPUTS = [None, 0, 5, True, ["f", "1.5"], "5", "abc", "1.5", "null", "2020-01-02
           ["f", "inf"], ["f", "-inf"], ["f", "nan"], ["dec", "Infinity"], ["dec", "NaN"], 10 ** 400, -(10 ** 400), "inf", "1e999",
           ["b", "bytes", "\u00ff\u00fe"], ["l", [["f", "inf"]]], ["d", [["x", ["f", "inf"]], ["y", 1]]],
           # bytes that are not text (a raw digest): no member reads them as None; oracle only (the model has no such value)
-          ["x", "binary"], ["x", "binary"]]
+          ["x", "binary"], ["x", "binary"],
+          # every text carrier, hashable or not (bytearray and a writable memoryview are not): the same text, the same member
+          ["b", "bytearray", "1"], ["b", "mviewW", "a"], ["b", "mview", "1"], ["b", "bytearray", "a"], ["b", "bytearray", "5"],
+          ["b", "mviewW", "abc"], ["b", "bytearray", "[1, 2]"], ["b", "mviewW", "2020-01-02"], ["b", "bytearray", "g"]]
 
 
 def explore(ctx):
